@@ -592,6 +592,11 @@ func (cs *Contracts) parseFile(pkgPath, fn, data string) error {
 			// an extern contract applies to calls made from the package that declares it; it is
 			// also the default for other packages unless two packages declare the same callee
 			ek := fs[0] + "::" + key
+			if _, dup := cs.Scoped[pkgPath+"|"+ek]; dup {
+				// a later declaration used to replace an earlier one silently (a bare re-declaration once hid the ghost
+				// effects of io.Writer.Write from every function of the package)
+				return fmt.Errorf("%s: duplicate extern contract for %s in %s", fn, ek, pkgPath)
+			}
 			cs.Scoped[pkgPath+"|"+ek] = cur
 			if prev, ok := cs.Funcs[ek]; ok && prev.SpecPkg != pkgPath {
 				cs.Ambig[ek] = true
